@@ -229,7 +229,7 @@ func runAll(args []string) int {
 		go func(i int, it item) {
 			defer wg.Done()
 			defer func() { <-sem }()
-			status, _, r := SolveGroup(it.fr, it.ins, 10, false)
+			status, _, r := SolveGroup(it.fr, it.ins, 20, false)
 			if it.ins[0].Cover {
 				if status == "unsat" {
 					out[i] = fmt.Sprintf("VACUOUS %s", it.n)
